@@ -126,6 +126,36 @@ pub fn check_step(ctx: &mut Ctx, s: &Step) -> Result<(), Violation> {
             }
         }
     }
+    // a man taken off and put back through the editing API (the pawn that has just made a double
+    // step among them): whatever board comes back, if it is a different position it must not have
+    // this position's hash
+    #[allow(deprecated)]
+    {
+        let mut squares: Vec<Sq> = vec![((h >> 13) & 63) as u8, ((h >> 23) & 63) as u8];
+        if let Some(t) = p.ep {
+            squares.push(if p.stm == Col::W { t - 8 } else { t + 8 });
+        }
+        let o = bridge::observe(s.board);
+        for q in squares {
+            if let Some((c, k)) = p.at(q) {
+                if k == Kind::K {
+                    continue;
+                }
+                if let Some(back) = s.board.clear_square(bridge::sq(q)).and_then(|r| r.set_piece(bridge::kind(k), bridge::col(c), bridge::sq(q))) {
+                    ctx.evals_add(1);
+                    let a = bridge::observe(&back);
+                    let same_position = a.placement == o.placement && a.stm == o.stm && a.castle == o.castle && a.ep == o.ep;
+                    if !same_position && a.hash == o.hash {
+                        ctx.fail(
+                            "hash:collision-edit-round-trip",
+                            format!("clear_square({}) then set_piece back gives a different position (en passant {:?} vs {:?}, castling {:?} vs {:?}) with the same hash {:#018x}", sq_name(q), a.ep, o.ep, a.castle, o.castle, a.hash),
+                            s.case_with(json!({"edit": format!("clear_square({}) then set_piece back", sq_name(q))})),
+                        )?;
+                    }
+                }
+            }
+        }
+    }
     if hs.len() > 1 {
         ctx.class("position:construction-paths-disagree-on-hash(C08's business; all are compared)");
     }
